@@ -231,14 +231,15 @@ static bool add_label(AsmState *state, const char *name, uint32_t offset) {
     return true;
 }
 
-static void add_patch(AsmState *state, const char *label, uint32_t code_offset, uint32_t instr_start) {
-    if (state->patch_count >= MAX_PATCHES) return;
+static bool add_patch(AsmState *state, const char *label, uint32_t code_offset, uint32_t instr_start) {
+    if (state->patch_count >= MAX_PATCHES) return false;
     Patch *p = &state->patches[state->patch_count++];
     strncpy(p->label, label, sizeof(p->label) - 1);
     p->label[sizeof(p->label) - 1] = '\0';
     p->code_offset = code_offset;
     p->instr_start = instr_start;
     p->function = state->current_function;
+    return true;
 }
 
 /* ========================================================================
@@ -301,8 +302,13 @@ static uint32_t encode_operand(uint8_t *buf, OperandType type,
                              "Expected label or i32 operand");
                     return 0;
                 }
-                add_patch(state, label, state->fn_code_size + (uint32_t)(buf - (state->fn_code + state->fn_code_size)),
-                          instr_start);
+                if (!add_patch(state, label, state->fn_code_size + (uint32_t)(buf - (state->fn_code + state->fn_code_size)),
+                               instr_start)) {
+                    result->error = ASM_ERR_MEMORY;
+                    snprintf(result->message, sizeof(result->message),
+                             "Too many label references in one function (max %d)", MAX_PATCHES);
+                    return 0;
+                }
                 /* Placeholder - will be patched */
                 memset(buf, 0, 4);
                 return 4;
@@ -385,12 +391,14 @@ static bool assemble_instruction(AsmState *state, const char *mnemonic,
         uint8_t operand_buf[8];
         /* For I32 label patches, we need the offset into fn_code where the operand will land */
         uint32_t patch_offset = state->fn_code_size;
+        uint32_t patches_before = state->patch_count;
         uint32_t nbytes = encode_operand(operand_buf, info->operands[i],
                                           rest, state, instr_start, result);
         if (result->error != ASM_OK) return false;
 
-        /* Fix up patch offset: if a patch was added, update its code_offset */
-        if (info->operands[i] == OPERAND_I32 && state->patch_count > 0) {
+        /* Fix up patch offset: if this operand added a patch, update its code_offset
+         * (a numeric i32 operand adds none and must leave the previous patch alone) */
+        if (info->operands[i] == OPERAND_I32 && state->patch_count > patches_before) {
             Patch *last = &state->patches[state->patch_count - 1];
             if (last->code_offset != patch_offset) {
                 last->code_offset = patch_offset;
